@@ -42,7 +42,9 @@ TEXT = {
                  'the slot is proved live / in bounds (O1, O2), every write hits a dead slot (no leak), every normal '
                  'return of every public root re-establishes "slot j is live iff j < len" for every container '
                  '(INV), Drop for Map/Drain destroys exactly the remaining live elements, iterator handles range '
-                 'over live slots only, and no leak/duplication primitive exists in the crate (CENSUS). Holds for '
+                 'over live slots only, no value wrapped in MaybeUninit::new is abandoned on the container\'s own panic, drain() '
+                 'empties the container at once (so a forgotten drain cannot leave elements owned twice), and no untamed '
+                 'leak/duplication primitive exists in the crate (CENSUS). Holds for '
                  'all K, V, N, fill levels and histories because INV is assumed at entry and re-proved at exit of '
                  'every root, in debug and release MIR.',
         'note': BASE + '; moved-out values are ordinary Rust values whose single destruction is the compiler\'s '
@@ -71,7 +73,10 @@ TEXT = {
         'technique': 'abstract interpretation of MIR: representation invariant at every normal and unwinding exit',
         'level': 'Proof for the len/prefix clauses: INV at every return and the safe-to-drop invariant after '
                  'container-raised panics, len <= N inductive, every iterator handle ranges over live slots of '
-                 '[0,len). Key uniqueness itself is a behavioural clause decided separately (not by these obligations).',
+                 '[0,len). Key uniqueness: every slot that joins the live prefix does so only after a completed scan of the '
+                 'whole prefix for that very key (APPEND-AFTER-MISS; positional clones of another container exempt), and no '
+                 'stored key is ever handed to user code by mutable reference (KEYMUT); is_empty/len/capacity report the '
+                 'len field / N.',
         'note': BASE + '; lawful Eq is needed for "pairwise unequal keys", not for the clauses proved here',
     },
     'C17': {
@@ -150,7 +155,9 @@ TEXT.update({
         'level': 'Partial (level other). insert_unchecked is interpreted under its documented precondition (two '
                  'passes: map not full / full and nothing appended) and must satisfy the very same outcome and '
                  'routing table as insert on every path; all other unsafe obligations of the body are discharged '
-                 '(C02/C17 rules). get_disjoint_unchecked_mut is the body the safe method runs after its precheck. '
+                 '(the safety rules that fail inside insert_unchecked / get_disjoint_unchecked_mut count for C18 as well); under '
+                 'the disjunct "full map, key present" insert_unchecked must still return normally (debug and release). '
+                 'get_disjoint_unchecked_mut is the body the safe method runs after its precheck. '
                  + PARTIAL,
         'note': BASE + '; the contract is the only assumption and is injected at exactly one point',
     },
@@ -168,6 +175,7 @@ TEXT.update({
                  'satisfy lower <= max(0, remaining - other.len()) resp. 0, upper >= remaining resp. '
                  'min(remaining, other.len()); union()/symmetric_difference() must be the stated chain of parts over '
                  'the full prefixes; Union/SymmetricDifference methods are thin delegations to the core Chain; '
+                 '`&a - &b` puts a clone of an element of a into the result iff it was looked up in b and not found; '
                  'is_subset/is_superset/is_disjoint may return true only after every element of the right operand was '
                  'examined with the right lookup outcome and false only on a witness (or, for is_subset, when '
                  'len(self) > len(other) is entailed); operands are never modified; unknown Iterator overrides on these '
@@ -202,12 +210,14 @@ TEXT.update({
     'C13': {
         'engine': SCHEMA,
         'technique': 'census of aliasing primitives + who-may-call + must-pass-through on the interpreted paths of get_disjoint_mut',
-        'level': 'Partial (level other). No raw pointer, transmute, pointer cast or unmodelled unsafe primitive exists '
+        'level': 'Partial (level other). No untamed raw pointer, transmute, pointer cast or unmodelled unsafe primitive exists '
                  'in the crate (the returned &mut V are carved by split_at_mut, so the borrow checker certifies '
                  'disjointness); get_disjoint_unchecked_mut is called only from get_disjoint_mut; on every path of '
                  'get_disjoint_mut that touches the container the pre-check loop ran to its end and no comparison of two '
                  'request keys answered "equal" (those paths panic); all unchecked accesses of the body are discharged '
-                 '(O1/O2). NOT decided: that the pre-check compares ALL pairs, and the position/value agreement with get_mut.',
+                 '(O1/O2); the pre-check is shown to compare EVERY pair i < j < J of the request array before the container is '
+                 'touched (positions of the caller\'s array are tracked; PAIRS rule). NOT decided: the position/value '
+                 'agreement with get_mut (e.g. a wrong result for more than 64 requests would not be seen).',
         'note': BASE,
     },
     'C14': {
